@@ -39,6 +39,7 @@ func TestMain(m *testing.M) {
 	Avoid.MakeLenCap = rec.Known("F-C08-7")
 	Avoid.NilDerefValue = rec.Known("F-C08-8")
 	Avoid.EllipsisHint = rec.Known("F-C08-9")
+	Avoid.AppendOverlap = rec.Known("F-C08-11")
 	OnExcluded = func(id string) { rec.Excluded(id) }
 	os.Exit(vlib.Main(m, rec))
 }
